@@ -10,14 +10,17 @@ from kernel_common import op, new_prog
 REDUCTIONS = ["none", "dpor", "sdpor", "odpor"]
 
 
-def gen_mc_prog(rng, max_actors=3, max_ops=4, kinds=("mutex", "sem", "bar", "comm")):
+def gen_mc_prog(rng, max_actors=3, max_ops=4, kinds=("mutex", "sem", "bar", "comm", "cv")):
     """Small program at MC granularity (no time, no condition variables)."""
     na = rng.randint(2, max_actors)
     nm = rng.randint(1, 2) if "mutex" in kinds else 0
     ns = rng.randint(0, 1) if "sem" in kinds else 0
     nb = 1 if "bar" in kinds and rng.random() < 0.3 else 0
     nx = rng.randint(1, 2) if "comm" in kinds and rng.random() < 0.6 else 0
+    ncv = 1 if "cv" in kinds and nm and rng.random() < 0.35 else 0
     rec = [rng.random() < 0.3 for _ in range(nm)]
+    if ncv:
+        rec[0] = False
     cap = [rng.choice([0, 1]) for _ in range(ns)]
     bar = [rng.randint(2, na)] * nb
     actors = []
@@ -34,7 +37,16 @@ def gen_mc_prog(rng, max_actors=3, max_ops=4, kinds=("mutex", "sem", "bar", "com
                 ks += ["bar"]
             if nx:
                 ks += ["put", "get", "puta", "geta"]
+            if ncv:
+                ks += ["cvw", "cvs", "cvs"]
             k = rng.choice(ks)
+            if k in ("cvw", "cvs"):
+                if held[0]:
+                    continue
+                body = [op("cvwait", 1, 1)] if k == "cvw" and rng.random() < 0.7 else \
+                       ([op("cvwaitfor", 1, 1, 1)] if k == "cvw" else [op(rng.choice(["sig", "bcast"]), 1)])
+                ops += [op("lock", 1)] + body + [op("unlock", 1)]
+                continue
             if k == "lock":
                 m = rng.randrange(nm)
                 if held[m] and not rec[m]:
@@ -79,13 +91,16 @@ def gen_mc_prog(rng, max_actors=3, max_ops=4, kinds=("mutex", "sem", "bar", "com
             if rng.random() < 0.7:
                 ops.append(op("wait", h))
         actors.append(ops)
-    return new_prog(rec=rec, cap=cap, bar=bar, actors=actors, perm=[0] * nx, timed=False, gran="mc")
+    return new_prog(rec=rec, cap=cap, bar=bar, ncv=ncv, actors=actors, perm=[0] * nx, timed=False, gran="mc")
 
 
 def parse_transition(tr, pidmap):
     """'MUTEX_ASYNC_LOCK(mutex: 0, owner: 1)' -> fields of the checker's view (ids shifted to the specification's 1-based ones)"""
     d = {"ctype": tr.split("(", 1)[0]}
     m = re.search(r"(?:mutex|semaphore|barrier): (\d+)|mbox=(\d+)", tr)
+    mc = re.search(r"cond(?:var|ition)?(?:_id)?: ?(\d+)", tr)
+    if mc:
+        d["ccond"] = int(mc.group(1)) + 1
     if m:
         d["cobj"] = int(m.group(1) if m.group(1) is not None else m.group(2)) + 1
     m = re.search(r"owner: (-?\d+)", tr)
@@ -249,6 +264,13 @@ def regression_progs():
                  timed=False, gran="mc"),
         new_prog(cap=[0], rec=[False], actors=[[op("acq", 1), op("trylock", 1, 1), op("unlock", 1)], [op("lock", 1), op("rel", 1), op("unlock", 1)],
                                                 [op("trylock", 1, 1), op("unlock", 1)]], timed=False, gran="mc"),
+        # condition variable: two waiters, one broadcast / one signal (a waiter may stay blocked for ever: deadlock outcomes)
+        new_prog(rec=[False], ncv=1, actors=[[op("lock", 1), op("cvwait", 1, 1), op("unlock", 1)], [op("lock", 1), op("cvwait", 1, 1), op("unlock", 1)],
+                                             [op("lock", 1), op("bcast", 1), op("unlock", 1)]], timed=False, gran="mc"),
+        # the mutex of the condition is not mutex 1 and a signaler re-locks it (ids of mutex and condvar differ)
+        new_prog(rec=[False, False], ncv=1, cap=[0], timed=False, gran="mc",
+                 actors=[[op("lock", 2), op("rel", 1), op("cvwait", 1, 2), op("trylock", 1), op("unlock", 2)],
+                         [op("acq", 1), op("lock", 2), op("sig", 1), op("unlock", 2), op("lock", 2), op("trylock", 1), op("unlock", 2)]]),
     ]
 
 
